@@ -6,6 +6,7 @@ From Coq Require Import List NArith String Bool Lia Permutation.
 From V Require Import Base.Strings Base.Result Model.Registry Model.Settings Model.Subst
   Model.TypePath Model.Derives Model.Generate Model.Emit Model.Equal Model.Switches Model.Renumber
   Proofs.GenProofs Proofs.TpMap Proofs.ItemsCanonical Proofs.RenumberPerm.
+From V Require Import Proofs.SynKey.
 Import ListNotations.
 Open Scope string_scope. Open Scope list_scope.
 
@@ -241,7 +242,7 @@ Section Resolve.
   Proof.
     intros e. unfold from_type_def_path. destruct path as [|a [|b l]]; [discriminate| |].
     - destruct (assoc_str (prelude_table alloc) a); discriminate.
-    - destruct (forallb ident_lexb (a :: b :: l)); discriminate.
+    - destruct (forallb path_seg_okb (a :: b :: l)); discriminate.
   Qed.
 
   Lemma type_path_maybe_no_err path params :
@@ -595,9 +596,9 @@ Section IR.
   Lemma resolve_derives_err flat t e :
     resolve_derives_for_type flat t = Err e -> rename_err pi e = e.
   Proof.
-    unfold resolve_derives_for_type, syn_type_path_key.
-    destruct (t_path t) as [|a l]; cbn [bind]; [intros H; inversion H; reflexivity|].
-    destruct (forallb ident_okb (a :: l)); cbn [bind]; intros H; inversion H; reflexivity.
+    unfold resolve_derives_for_type.
+    destruct (syn_key_cases (t_path t)) as [E|E]; rewrite E; cbn [bind];
+      intros H; inversion H; reflexivity.
   Qed.
 
   Theorem create_type_ir_equivariant t flat :
